@@ -74,6 +74,7 @@ def strip(e):
 
 def validate(ctx, proj, tag):
     """TLC on the judged lines; returns (accepted, {case index: [why]})"""
+    vlib._speccopy(ctx)      # scratch copy of spec/ made before the parallel shards start
     idx = [i for i, e in enumerate(proj) if e['st'] in JUDGED or e['st'] == 'rejected']
     lines = [json.dumps(strip(proj[i]), separators=(',', ':')) for i in idx]
     accepted, rejects = vlib.tlc_trace(ctx, 'C02Trace', 'C02Trace.cfg', lines, min_per_shard=150, heap='3g')
